@@ -38,4 +38,10 @@ def vm_obligations(prop="C02"):
 
 
 def obligations(repo):
-    return vm_obligations()
+    obs = vm_obligations()
+    try:
+        import c02_native
+        obs += c02_native.native_obligations("C02")
+    except ImportError:
+        pass
+    return obs
